@@ -403,8 +403,9 @@ class DSession:
     ) -> None:
         # Check we haven't already seen this report (from
         # another worker).
-        if rep.longrepr not in self._failed_collection_errors:
-            self._failed_collection_errors[rep.longrepr] = True
+        key = str(rep.longrepr)
+        if key not in self._failed_collection_errors:
+            self._failed_collection_errors[key] = True
             self.config.hook.pytest_collectreport(report=rep)
             self._handlefailures(rep)
 
